@@ -812,7 +812,7 @@ func (env *specEnv) call(n *SCall) (TV, error) {
 		}
 		sort := env.S().SortOf(T)
 		return TV{env.h(resKey(ts.V, sort)), sort, T}, nil
-	case "concat", "hasSuffix", "hasPrefix", "strIndex", "splitLast":
+	case "concat", "hasSuffix", "hasPrefix", "strIndex", "strLastIndex", "splitLast":
 		a, err := env.Term(n.Args[0])
 		if err != nil {
 			return TV{}, err
@@ -825,6 +825,8 @@ func (env *specEnv) call(n *SCall) (TV, error) {
 		switch n.Fn {
 		case "strIndex":
 			return TV{fmt.Sprintf("(strindex %s %s)", a.T, b.T), "Int", intT()}, nil
+		case "strLastIndex":
+			return TV{fmt.Sprintf("(strlastindex %s %s)", a.T, b.T), "Int", intT()}, nil
 		case "splitLast":
 			return TV{fmt.Sprintf("(splitlast %s %s)", a.T, b.T), "Str", types.Typ[types.String]}, nil
 		case "concat":
